@@ -303,5 +303,5 @@ def _codeql_start_column(tree, repo):
     raise Unrecognised(f"startColumn default is `{ast.unparse(g)}`")
 
 
-custom("codeql_start_column", "src/codemodder/codeql.py", ["C06"], "codeql_start_column", "sc_default", "ScOne",
+custom("codeql_start_column", "src/codemodder/codeql.py", ["C06", "C12"], "codeql_start_column", "sc_default", "ScOne",
        _codeql_start_column, doc="CodeQLLocation.from_sarif: the start column of a region without startColumn")
